@@ -17,3 +17,18 @@ func thmBareNameInverse(s string) {
 	//@ assert forall k int :: 0 <= k && k < len(s) ==> u[k] == s[k]
 	_ = u
 }
+
+//@ theorem C05.quotedNameInverse
+//@   props C05
+//@   requires exists k int :: 0 <= k && k < len(s) && nwQ(s[k])
+// A name that needs quoting (it contains a separator, a quote, '_', TAB, LF or CR) also survives
+// nameToText -> nameFromText: it is written between quotes with every quote doubled, and reading undoes exactly that
+// (relative to the assumed behaviour of strings.ReplaceAll on the two patterns, spec functions dq / uq).
+func thmQuotedNameInverse(s string) {
+	t := nameToText(s)
+	//@ assert len(t) == len(dq(s)) + 2 && t[0] == 39 && t[len(t) - 1] == 39
+	//@ assert strEq(substr(t, 1, len(t) - 1), dq(s))
+	u := nameFromText(t)
+	//@ assert u == s
+	_ = u
+}
